@@ -421,6 +421,26 @@ for mi in range(nhelp_mat):
                                            dict(predicate="at_interface_select", helper=helper, kind=kind, mode_inc=m_in, mode_out=m_out,
                                                 unit=unit, force_complex=fc, alpha=float(alphas[i]).hex(), material=mat,
                                                 got=complex(got[i]), expected=complex(want[i])), True)
+                            if err is None and fc:
+                                # complex angle dtype with force_complex=False is the same request as
+                                # force_complex=True (quantifier: "real and complex angle dtypes")
+                                kw2 = dict(kw, angles_inc=alphas.astype(complex), force_complex=False)
+                                try:
+                                    got2 = (model.transmission_at_interface(material_out=m_oth, **kw2) if helper == "tr"
+                                            else model.reflection_at_interface(material_against=m_oth, **kw2))
+                                    with np.errstate(all="ignore"):
+                                        r2 = np.abs(np.asarray(got2) - got) / np.maximum(1.0, np.abs(got))
+                                    ok2 = (r2 <= 1e-13) | (np.isnan(np.abs(got2)) & np.isnan(np.abs(got)))
+                                except Exception as e:      # noqa: BLE001
+                                    ok2 = np.zeros(len(alphas), bool)
+                                    got2 = np.full(len(alphas), np.nan)
+                                n_eval += len(alphas)
+                                for i in np.nonzero(~ok2)[0][:3]:
+                                    report(f"dtype:{combo}:{unit}", "complex-dtype angles with force_complex=False give a different "
+                                           "coefficient than force_complex=True",
+                                           dict(predicate="dtype independence", helper=helper, kind=kind, mode_inc=m_in, mode_out=m_out,
+                                                unit=unit, alpha=float(alphas[i]).hex(), material=mat,
+                                                got_complex_dtype=complex(got2[i]), got_force_complex=complex(got[i])), True)
                             for i, a in enumerate(alphas):
                                 if err is None and margin[i] < MARGIN:
                                     ambiguous += 1
